@@ -11,7 +11,9 @@ def contract(rng_o, rng_n, has_deadline):
     ensures
     /*L*/     cap_post(old, %(o)s, new, %(n)s, res@, false),   // [C02,C09,C10]
     /*S*/     cap_post(old, %(o)s, new, %(n)s, res@, true),    // [C11]
-''' % {'o': rng_o, 'n': rng_n, 'dls': ('deadline is None,   // exactness is claimed without a deadline only (the deadline fallback emits an Insert that carries the start of the deleted block)' if has_deadline else 'true,')}
+    /*L*/     (%(dln)s && alg != Algorithm::Patience) ==> cap_eqs(old, %(o)s, new, %(n)s, res@, false)
+    /*L*/         == lcs_len(old, %(o)s.start as int, %(o)s.end as int, new, %(n)s.start as int, %(n)s.end as int),   // [C03]
+''' % {'o': rng_o, 'n': rng_n, 'dln': ('deadline is None' if has_deadline else 'true'), 'dls': ('deadline is None,   // exactness is claimed without a deadline only (the deadline fallback emits an Insert that carries the start of the deleted block)' if has_deadline else 'true,')}
 i = o.find('pub fn capture_diff<Old, New>(')
 o.before('{', contract('old_range', 'new_range', False), start=i)
 i = o.find('pub fn capture_diff_slices<T>(')
@@ -48,7 +50,8 @@ proof {
     reveal(step_rel);
     let lvl = alg_lvl(deadline);
     let s = choose|q: Seq<Ev>| #[trigger] seg(old, new, lvl, q, os, ns, oe, ne) && d.trace() == d0.trace() + q + fin::<Compact<Old, New, Replace<Capture>>>()
-        && (d0.relies() ==> d.rely_st() == run_rel(d0.rely_rel(), d0.rely_st(), q + fin::<Compact<Old, New, Replace<Capture>>>()));
+        && (d0.relies() ==> d.rely_st() == run_rel(d0.rely_rel(), d0.rely_st(), q + fin::<Compact<Old, New, Replace<Capture>>>()))
+        && ((deadline is None && alg != Algorithm::Patience) ==> seg_eqs(rel, lvl, q, os, ns, oe, ne) == lcs_len(old, os, oe, new, ns, ne));
     lemma_seg_any(rel, rel, lvl, s, os, ns, oe, ne, d0.rely_st());
     lemma_run_fin::<Compact<Old, New, Replace<Capture>>>(rel, d0.rely_st(), s);
     assert(d.rely_st().ok && d.rely_st().fin);
@@ -76,11 +79,12 @@ proof {
     assert(q0.oc == os && q0.nc == ns && q0.oe == oe && q0.ne == ne && q0.lvl == lr);
     // what the Replace adapter received adds up to the compacted ops
     lemma_run_ops_acc(rel, i0, ops1);
-    lemma_sum_mono(ops1, 0, ops1.len() as int);
+    lemma_sums_mono(ops1, 0, ops1.len() as int);
     assert(rp.rst().oc == oe && rp.rst().nc == ne);
     let xs = rp.xs();
     assert(xs.ok && xs.oc == oe && xs.nc == ne);
     assert(evs_of(cp.ops_spec()) == rp.em_());
+    assert(xs.eqs == seg_eqs(rel, lvl, s, os, ns, oe, ne));   // [C03]
 }
 ''', '    ')
 o.save()
